@@ -52,8 +52,8 @@ def check(run):
     res = validate(run, obs, n)
     viols = viols_from(res, rows)
     # history part: binds inside add/modify/delete/Set* sequences (Dir20 behaviours), monitor BindConforms
-    hp = dir20.run_pipeline(run, 3, 10, 40, 300, focus="bind") if run.quick() else dir20.run_pipeline(run, 4, 24, 200, 3000, focus="bind")
-    viols += dir20.viols_from("C19", hp["res"], hp["rows"], {"BindConforms"})
+    hp = dir20.run_pipeline(run, 3, 10, 40, 300, focus="bind", bgbind=True) if run.quick() else dir20.run_pipeline(run, 4, 24, 200, 3000, focus="bind", bgbind=True)
+    viols += dir20.viols_from("C19", hp["res"], hp["rows"], {"BindConforms", "BackgroundBindsConform"})
     nhist = sum(1 for r in hp["rows"] if r["op"] == "bind")
     nb = sum(len(r["binds"]) * 3 for r in rows)
     nontriv = len({json.dumps(r["users"]) for r in rows if len(r["users"]) >= 1})
